@@ -14,7 +14,54 @@ setup_repo_path()
 import torch  # noqa: E402
 
 torch.set_num_threads(1)
-from inferno.neural import LinearDense, LinearDirect, LinearLateral, Conv2D, DeltaCurrent, DeltaPlusCurrent  # noqa: E402
+from inferno.neural import (LinearDense, LinearDirect, LinearLateral, Conv2D, DeltaCurrent, DeltaPlusCurrent,  # noqa: E402
+                            SingleExponentialCurrent, DoubleExponentialCurrent)
+import math  # noqa: E402
+
+SYNAPSES = ["DeltaCurrent", "DeltaPlusCurrent", "SingleExponentialCurrent", "DoubleExponentialCurrent"]
+
+
+class SynModel:
+    """The documented current of each shipped synapse as a function of its input history
+    (float64): delta Q/dt * s; delta-plus Q/dt * s + injected; single exponential
+    I <- I exp(-dt/tau) + (Q/tau) s; double exponential (pos <- pos exp(-dt/td) + k s) -
+    (neg <- neg exp(-dt/tr) + k s) with k = Q/(td - tr).  Time constants follow the dyadic
+    recipe tau = dt/ln 2 (decay 1/2), tr = dt/(2 ln 2) (decay 1/4)."""
+
+    def __init__(self, name: str, dt: float, charge: float):
+        self.name, self.dt, self.q = name, dt, charge
+        self.tau = dt / math.log(2.0)
+        self.tr = dt / (2.0 * math.log(2.0))
+        self.a = self.b = None
+        self.exact = name in ("DeltaCurrent", "DeltaPlusCurrent")
+
+    def constructor(self):
+        if self.name == "DeltaCurrent":
+            return DeltaCurrent.partialconstructor(self.q)
+        if self.name == "DeltaPlusCurrent":
+            return DeltaPlusCurrent.partialconstructor(self.q)
+        if self.name == "SingleExponentialCurrent":
+            return SingleExponentialCurrent.partialconstructor(self.q, self.tau)
+        return DoubleExponentialCurrent.partialconstructor(self.q, self.tau, self.tr)
+
+    def step(self, spikes: np.ndarray, inj) -> np.ndarray:
+        if self.name == "DeltaCurrent":
+            return spikes * (self.q / self.dt)
+        if self.name == "DeltaPlusCurrent":
+            return spikes * (self.q / self.dt) + inj
+        if self.name == "SingleExponentialCurrent":
+            self.a = (0.0 if self.a is None else self.a * math.exp(-self.dt / self.tau)) + (self.q / self.tau) * spikes
+            return self.a
+        k = self.q / (self.tau - self.tr)
+        self.a = (0.0 if self.a is None else self.a * math.exp(-self.dt / self.tau)) + k * spikes
+        self.b = (0.0 if self.b is None else self.b * math.exp(-self.dt / self.tr)) + k * spikes
+        return self.a - self.b
+
+    def magnitude(self, cur) -> np.ndarray:
+        """size of the float32 quantities the current is computed from (for the tolerance)"""
+        if self.name == "DoubleExponentialCurrent":
+            return np.abs(self.a) + np.abs(self.b)
+        return np.abs(np.asarray(cur, dtype=np.float64))
 
 SITE = {"dense": "LinearDense", "direct": "LinearDirect", "lateral": "LinearLateral", "conv": "Conv2D"}
 
@@ -25,8 +72,7 @@ def dyadic(rng: random.Random, shape, lo=-15, hi=15, den=16.0) -> torch.Tensor:
     return torch.tensor(vals, dtype=torch.float32).reshape(tuple(shape))
 
 
-def build(geom: dict, *, bias: bool, batch: int, dt: float, charge: float, plus: bool, W, b):
-    syn = (DeltaPlusCurrent if plus else DeltaCurrent).partialconstructor(charge)
+def build(geom: dict, *, bias: bool, batch: int, dt: float, syn, W, b):
     kw = dict(synapse=syn, bias=bias, batch_size=batch, weight_init=(lambda w: W.clone()),
               bias_init=((lambda x: b.clone()) if bias else None))
     k = geom["kind"]
@@ -68,7 +114,8 @@ def expected_forward(rec: dict, cur: np.ndarray, W: np.ndarray, b):
     return out
 
 
-def check_geometry(rec: dict, rng: random.Random, report, *, corrupt: str | None = None) -> int:
+def check_geometry(rec: dict, rng: random.Random, report, *, corrupt: str | None = None, index: int = 0,
+                   steps: int = 4) -> int:
     """Runs every comparison for one emitted geometry; calls report(clause, detail) for each
     disagreement; returns the number of comparisons made.  `corrupt` (canary) damages the
     emitted relation first."""
@@ -89,12 +136,13 @@ def check_geometry(rec: dict, rng: random.Random, report, *, corrupt: str | None
     B = rng.choice([1, 2, 3])
     dt = rng.choice([1.0, 0.5, 2.0])
     charge = rng.choice([1.0, 0.5, 2.0, -1.0])
-    plus = rng.random() < 0.5
+    model = SynModel(SYNAPSES[index % 4], dt, charge)          # all four shipped synapse classes in turn
+    plus = model.name == "DeltaPlusCurrent"
     W = dyadic(rng, rec["wshape"])
     b = dyadic(rng, rec["bshape"]) if bias else None
-    cfg = {"bias": bias, "batch": B, "dt": dt, "charge": charge, "synapse": "DeltaPlusCurrent" if plus else "DeltaCurrent"}
+    cfg = {"bias": bias, "batch": B, "dt": dt, "charge": charge, "synapse": model.name}
     try:
-        conn = build(geom, bias=bias, batch=B, dt=dt, charge=charge, plus=plus, W=W, b=b)
+        conn = build(geom, bias=bias, batch=B, dt=dt, syn=model.constructor(), W=W, b=b)
     except Exception as ex:
         report("Construct", {"raised": type(ex).__name__, "msg": str(ex)[:200], "cfg": cfg})
         return 1
@@ -120,37 +168,80 @@ def check_geometry(rec: dict, rng: random.Random, report, *, corrupt: str | None
         claim("bias", conn.bias.shape, rec["bshape"])
     claim("synapse", conn.synapse.shape, rec["synshape"])
 
-    # ---- forward = the emitted linear map (exact: dyadic values)
-    for trial in range(3):
+    # ---- forward = the emitted linear map of the synapse's documented current, over several
+    # consecutive steps; after every step the synapse's own state must be what the synapse computed
+    # (the connection's forward must not write into it)
+    syn = np.asarray(rec["syn"], dtype=np.int64).reshape(-1, 3)
+    src = syn[:, 2]
+
+    def synaptic(a):            # input layout (B, ...) -> synaptic layout (B, *synshape) via the emitted map
+        flat = a.reshape(B, -1)
+        out = np.zeros((B, rec["synshape"][0], max(1, int(np.prod(rec["synshape"][1:])))), dtype=np.float64)
+        out[:, syn[:, 0], syn[:, 1]] = np.where(src[None, :] >= 0, flat[:, np.maximum(src, 0)], 0.0)
+        return out.reshape(B, *rec["synshape"])
+
+    def same(got, want, scale):
+        """exact for the dyadic (delta) synapses; otherwise float32 rounding relative to the size of
+        the terms that were summed (not of the possibly cancelling result)"""
+        if model.exact:
+            return np.array_equal(got, want)
+        return got.shape == want.shape and bool(np.all(np.abs(got - want) <= 1e-5 * scale + 1e-6))
+
+    for trial in range(steps):
         spikes = (torch.rand(B, *rec["inshape"], generator=_tgen(rng)) < (0.5 if trial else 1.1)).float()
         inputs = [spikes]
-        cur = spikes.numpy().astype(np.float64) * (charge / dt)
+        inj = 0.0
         if plus:
-            inj = dyadic(rng, [B] + rec["inshape"], -8, 8, 4.0)
-            inputs.append(inj)
-            cur = cur + inj.numpy().astype(np.float64)
+            injt = dyadic(rng, [B] + rec["inshape"], -8, 8, 4.0)
+            inputs.append(injt)
+            inj = injt.numpy().astype(np.float64)
+        cur = model.step(spikes.numpy().astype(np.float64), inj)
         n += 1
         try:
             out = conn(*inputs)
         except Exception as ex:
-            report("Forward", {"raised": type(ex).__name__, "msg": str(ex)[:200], "cfg": cfg})
+            report("Forward", {"raised": type(ex).__name__, "msg": str(ex)[:200], "cfg": cfg, "step": trial})
             break
         if tuple(out.shape) != (B, *rec["outshape"]):
             report("Shape:forward", {"observed": list(out.shape), "specified": [B] + rec["outshape"], "cfg": cfg})
             break
         want = expected_forward(rec, cur, Wa, ba)
+        mag = model.magnitude(cur)
+        scale = expected_forward(rec, mag, np.abs(Wa), None if ba is None else np.abs(ba))
         got = out.detach().numpy().astype(np.float64)
-        if not np.array_equal(got, want):
-            bad = np.argwhere(got != want)[0].tolist()
-            report("Forward", {"first_differing_output": bad, "observed": float(got[tuple(bad)]),
+        if not same(got, want, scale):
+            bad = np.argwhere((np.abs(got - want) > 1e-5 * scale + 1e-6) if not model.exact else got != want)[0].tolist()
+            report("Forward", {"step": trial, "first_differing_output": bad, "observed": float(got[tuple(bad)]),
                                "specified": float(want[tuple(bad)]), "cfg": cfg,
                                "weight": W.reshape(-1).tolist(), "bias": b.tolist() if bias else None,
-                               "current": cur.reshape(-1).tolist()})
+                               "current": np.asarray(cur).reshape(-1).tolist()})
+            break
+        # the synapse's observable state after the connection's forward
+        n += 1
+        wsyn = synaptic(np.asarray(cur))
+        msyn = synaptic(mag)
+        wspk = synaptic(spikes.numpy().astype(np.float64)) != 0
+        try:
+            obs = {"synapse.current": conn.synapse.current, "syncurrent": conn.syncurrent,
+                   "synapse.spike": conn.synapse.spike, "synspike": conn.synspike}
+        except Exception as ex:
+            report("SynapseStateIntact", {"raised": type(ex).__name__, "cfg": cfg, "step": trial})
+            break
+        broken = None
+        for name, val in obs.items():
+            v = val.detach().numpy()
+            w_ = wspk if "spike" in name else wsyn
+            if v.shape != w_.shape or not (np.array_equal(v.astype(bool), w_) if "spike" in name else same(v.astype(np.float64), w_, msyn)):
+                broken = (name, v, w_)
+                break
+        if broken:
+            report("SynapseStateIntact", {"step": trial, "attribute": broken[0], "cfg": cfg,
+                                          "observed": np.asarray(broken[1], dtype=np.float64).reshape(-1).tolist()[:24],
+                                          "specified": np.asarray(broken[2], dtype=np.float64).reshape(-1).tolist()[:24]})
             break
 
     # ---- synaptic layout, round trip, receptive views on token tensors
     xt = (torch.arange(B * int(np.prod(rec["inshape"])), dtype=torch.float32) + 1).reshape(B, *rec["inshape"])
-    syn = np.asarray(rec["syn"], dtype=np.int64).reshape(-1, 3)
     n += 1
     try:
         ls = conn.like_synaptic(xt)
@@ -159,7 +250,6 @@ def check_geometry(rec: dict, rng: random.Random, report, *, corrupt: str | None
         else:
             lsn = ls.numpy().reshape(B, rec["synshape"][0], -1)
             xf = xt.numpy().reshape(B, -1)
-            src = syn[:, 2]
             want = np.where(src[None, :] >= 0, xf[:, np.maximum(src, 0)], 0.0)
             got = lsn[:, syn[:, 0], syn[:, 1]]
             if not np.array_equal(got, want) or lsn.shape[1] * lsn.shape[2] != len(syn):
